@@ -107,7 +107,11 @@ fn run_op(line: &str, st: &mut track::State) -> String {
         #[cfg(feature = "serde")]
         ["S", h] => op_serde(h),
         #[cfg(feature = "std")]
-        ["R", h, s] => sched::op_reader(h, s),
+        ["R", h, s] => sched::op_reader(h, s, 0),
+        #[cfg(feature = "std")]
+        ["R", h, s, off] => match off.parse::<usize>() { Ok(o) => sched::op_reader(h, s, o), Err(_) => "BADOP".into() },
+        #[cfg(all(feature = "std", rsadsb_adsb_deku_verif))]
+        ["RC", pre, h, s, calls] => sched::op_rc(pre, h, s, calls),
         ["T", rest @ ..] => track::op(st, rest),
         _ => "BADOP".into(),
     }
